@@ -306,7 +306,14 @@ def configs(ctx):
                                                  deviations=ctx.pick(1, 2), fine=0), CLOSURE))
     out.append(("cyclic-group-2-endpoints", dict(sid=sid, major=major, advs=(None, "half", "next", "next-2r"), groups=(6,),
                                                  endpoints=("e1", "e2"), deviations=ctx.pick(1, 2), fine=1,
-                                                 inside_cyclic_round=True), CLOSURE))
+                                                 inside_cyclic_round=not ctx.thorough), CLOSURE))
+    if ctx.thorough:
+        # stepping inside a cyclic round with ONE deviation only: with two, a subscribe can fall between the end of a
+        # round that found no subscribers and the idle point, where the reference model cannot tell whether the cycle
+        # restarts (it does) - the statement does not fix the phase of cyclic rounds, so that is not judged
+        out.append(("cyclic-group-2-endpoints-inside-round", dict(sid=sid, major=major, advs=(None, "half", "next"), groups=(6,),
+                                                                  endpoints=("e1", "e2"), deviations=1, fine=0,
+                                                                  inside_cyclic_round=True), CLOSURE))
     out.append(("manual-group-udp-tcp-twin-endpoints", dict(sid=sid, major=major, advs=(None,), groups=(5,),
                                                             endpoints=("e1", "e1t", "e2"), deviations=1, fine=0), CLOSURE))
     out.append(("cyclic-group-udp-tcp-twin-endpoints", dict(sid=sid, major=major, advs=(None, "next"), groups=(6,),
